@@ -72,6 +72,22 @@ def need(obj, attr):
                              % (attr, type(obj).__name__))
 
 
+def title_of(text):
+    """the title part of str(connection): NAME (role[ to][ title][, closed])"""
+    inner = text[text.index('(') + 1:text.rindex(')')]
+    if inner.endswith(', closed'):
+        inner = inner[:-len(', closed')]
+    for word in ('client', 'server', 'unknown type'):
+        if inner == word:
+            return ''
+        if inner.startswith(word + ' '):
+            t = inner[len(word) + 1:]
+            if word == 'server' and t.startswith('to '):
+                t = t[3:]
+            return t
+    return inner
+
+
 class Recorder:
     """the two output streams, in order of writing"""
 
@@ -154,7 +170,8 @@ class Session:
         for c in self.cm.connections():
             srv = c.is_server()
             out.append({'name': c.name(), 'role': 'unknown' if srv is None else ('server' if srv else 'client'),
-                        'open': bool(c.is_open()), 'n': len(c.messages())})
+                        'open': bool(c.is_open()), 'n': len(c.messages()), 'appid': c.app_id() or '',
+                        'title': title_of(lexer.strip_color(str(c)))})
         return out
 
     def db(self, k):
